@@ -130,7 +130,7 @@ Definition oneofs_flat_b (e : env) : bool :=
 (* every static hypothesis of the round-trip theorem, decided on an environment of the run
    (soundness of the deciders: proofs/CodecEncDecProofs.v) *)
 Definition env_static_ok (e : env) : bool :=
-  oneofs_flat_b e && oneof_names_ok_b e &&
+  oneofs_flat_b e && oneof_names_ok_b e && env_items_ok_b e &&
   forallb (fun ns => match snd ns with
                      | SObject ps | SOneof ps => props_ok_b e ps
                      | SEnum _ _ => true
@@ -187,12 +187,12 @@ Definition enc_check (c : enc_case) : bool :=
                 | Some x, Some y => jv_eq_perm (S (length out)) x y
                 | _, _ => false
                 end) &&
-          match decode_text (float_parse_table pf) (table_get pt) e root out, back with
+          match decode_text (dec_scalar (float_parse_table pf) (table_get pt)) e root out, back with
           | Ok m', Some mb => msg_eqb m' mb
           | Err _, None => true
           | _, _ => false
           end &&
-          outcome_msg_agree (decode_text (float_parse_table pf) (table_get pt) e root out)
+          outcome_msg_agree (decode_text (dec_scalar (float_parse_table pf) (table_get pt)) e root out)
                             (decode_bytes (dec_oracles pf pt) e root out) xcheck
       | _ => false
       end
